@@ -41,7 +41,7 @@ brute-force enumeration, only generalised to flat lists of selected outputs:
     is a power of two, i.e. where float32 is still exact), mixed target / model dtypes;
   * X of dtype int64 / float64, X handed over as a non-contiguous view;
   * motif lists with a duplicated motif, with a motif that is already present in the sequence (a no-op
-    candidate with improvement 0), ordered longest first, given as a tuple;
+    candidate with improvement 0), ordered longest first;
   * `alphabet` / `batch_size` left to their defaults, verbose=True (output swallowed; it must not change
     the result);
   * tol equal to the exact improvement of the 1st .. 5th step of the reference path, or one loss quantum
@@ -75,7 +75,7 @@ SCOPE = {
              'int8 / float32 X; targets: random, or the model output with a motif planted at the LAST fitting position / the first position / a random position, '
              'or with 2-4 motifs planted (multi-step paths); interleaved with 1400 extended cases: models with (n_out, T) profile outputs (T 2-8) and channel masks, '
              'models blind to a stretch of positions (exact zero-improvement candidates), asymmetric / negative-valued / plain-function losses, float32 models and targets '
-             '(exact range only) and mixed dtypes, X of dtype int64/float64 and non-contiguous X, duplicated / already-present / longest-first / tuple motif lists, '
+             '(exact range only) and mixed dtypes, X of dtype int64/float64 and non-contiguous X, duplicated / already-present / longest-first motif lists, '
              'default alphabet and batch_size, verbose=True, tol at / one quantum below / one quantum above the exact improvement of step 1-5 of the reference path',
     'thorough': 'as quick with 24000 + 16000 seeded random cases',
 }
@@ -300,7 +300,7 @@ def _call(case, model):
         raise ValueError('loss %r needs loss_form fn' % case['loss'])
     elif case.get('explicit_loss'):
         kw['loss'] = torch.nn.MSELoss(reduction='none')
-    motif_arg = tuple(case['motifs']) if case.get('motifs_tuple') else list(case['motifs'])
+    motif_arg = list(case['motifs'])                # documented type: list of strings
     with _deadline(CALL_TIMEOUT_S):
         if case.get('verbose'):
             import contextlib
@@ -593,8 +593,6 @@ def _gen_ext(g, k, mask2d=False):
     if g.random() < 0.25:
         case['xlayout'] = 'permuted'
         feats.append('non-contiguous-X')
-    if g.random() < 0.25:
-        case['motifs_tuple'] = True
     if alphabet == ['A', 'C', 'G', 'T'] and g.random() < 0.4:
         case['omit_alphabet'] = True
         feats.append('default-alphabet')
